@@ -58,7 +58,7 @@ pub fn run(env: &Env) -> Report {
     let seed = env.a.seed;
     // shards: (opts, kind, index)
     #[derive(Clone)]
-    enum Kind { Short(usize), Structured(usize), Arbitrary(usize) }
+    enum Kind { Short(usize), Structured(usize), Arbitrary(usize), Marks(usize) }
     let mut shards: Vec<(Opts, Kind)> = vec![];
     let off = settings(false);
     let on = settings(true);
@@ -70,6 +70,9 @@ pub fn run(env: &Env) -> Report {
     let n_struct = if env.quick() { 16 } else { 64 };
     for i in 0..n_struct { shards.push((if i % 2 == 0 { off[i / 2 % 8] } else { on[i / 2 % 8] }, Kind::Structured(i))); }
     for i in 0..(if env.quick() { 8 } else { 32 }) { shards.push((on[i % 8], Kind::Arbitrary(i))); }
+    // two punctuation marks next to a digit / a letter, in every position (the transliterator reads `.` and `:` by their neighbours,
+    // so WHERE the text is cut between punctuation and word matters exactly there): every ordered pair of ASCII punctuation marks
+    for g in 0..8 { shards.push((off[(seed as usize + g) % 8], Kind::Marks(g))); shards.push((on[(seed as usize + g * 3) % 8], Kind::Marks(8 + g))); }
     let reps = par_map(shards.len(), |si| {
         let (opts, kind) = &shards[si];
         let mut rep = Report::new("c03");
@@ -138,6 +141,25 @@ pub fn run(env: &Env) -> Report {
                     check_h(env, &mut rep, opts, &txt, &o, Some((&lead, &word, &trail)), &s.events);
                     if rep.samples.len() < 3 { rep.sample(json!({"typed": txt, "opts": opts.bits_str(), "observed": render_obs(&o, true)})); }
                     s.finish(&mut t);
+                }
+            }
+            Kind::Marks(g) => {
+                let marks: Vec<char> = typeable.iter().copied().filter(|c| c.is_ascii_punctuation()).collect();
+                let (g, lists) = if *g >= 8 { (g - 8, true) } else { (*g, false) };
+                for (i, &a) in marks.iter().enumerate() {
+                    if i % 8 != g { continue; }
+                    for &b in &marks {
+                        // with the list on (a dictionary search per key) only the pairs that contain a full stop, a colon or a back-tick
+                        if lists && !".:`".contains(a) && !".:`".contains(b) { continue; }
+                        for w in ["5", "k"] {
+                            for txt in [format!("{}{}{}", a, b, w), format!("{}{}{}", w, a, b), format!("{}{}{}", a, w, b)] {
+                                let o = s.type_text(&mut t, &txt);
+                                check(env, &mut rep, opts, &txt, &o, None);
+                                rep.count("two-marks-text");
+                                s.finish(&mut t);
+                            }
+                        }
+                    }
                 }
             }
             Kind::Arbitrary(_) => {
